@@ -120,6 +120,23 @@ def probe_projects():
         for nm in names:
             add("type-name", cls, nm, rg.struct_src(nm, [("a", "i32")]) + rg.command_src("get_item", [("id", "i32")], nm))
             add("enum-type-name", cls, nm, rg.enum_src(nm, [("Alpha",), ("Beta",)]) + rg.command_src("get_item", [("id", "i32")], nm))
+    # --- type references whose generic arguments are not (all) types: lifetimes, const arguments, elided lifetimes
+    raw_struct = lambda decl, fields: "#[derive(Serialize, Deserialize)]\npub struct %s {\n%s}\n\n" % (decl, "".join("    pub %s: %s,\n" % f for f in fields))
+    for cls, decl, use in [("lifetime-argument", "Borrowed<'a>", "Borrowed<'static>"), ("elided-lifetime-argument", "Borrowed<'a>", "Borrowed<'_>"),
+                           ("const-generic-argument", "Buf<const N: usize>", "Buf<4>"), ("lifetime-and-type-argument", "Tagged<'a, T>", "Tagged<'static, Item>"),
+                           ("std-type-with-lifetime", "Unused0", "std::borrow::Cow<'static, str>")]:
+        name = decl.split("<")[0]
+        fields = [("name", "&'a str")] if "'a" in decl else [("data", "Vec<u8>")]
+        if ", T" in decl:
+            fields.append(("inner", "T"))
+        defs = rg.struct_src("Item", [("a", "i32")]) + raw_struct(decl, fields)
+        add("param-type", cls, use, defs + rg.command_src("get_item", [("req", use.replace("'static", "'_"))], "Item"))
+        add("return-type", cls, use, defs + rg.command_src("get_item", [("id", "i32")], use))
+        add("return-type-nested", cls, use, defs + rg.command_src("get_item", [("id", "i32")], "Result<Vec<Option<%s>>, String>" % use))
+        add("field-type", cls, use, defs + raw_struct("Holder", [("h", use), ("hs", "Vec<%s>" % use)]) + rg.command_src("get_item", [("id", "i32")], "Holder"))
+        add("channel-type", cls, use, defs + "use tauri::ipc::Channel;\n" + rg.command_src("get_item", [("id", "i32"), ("ch", "Channel<%s>" % use)], "Item"))
+        add("event-payload-type", cls, use, defs + rg.command_src("get_item", [("id", "i32")], "Item") +
+            "pub fn notify(app: tauri::AppHandle, p: %s) {\n    app.emit(\"borrowed\", p).unwrap();\n}\n\n" % use)
     # --- events
     for cls, names in EVENT_NAMES:
         for nm in names:
